@@ -299,12 +299,35 @@ def run(ctx):
     ctx.analysed['token_error_sites'] = n
     # the reader's tolerant branch returns the placeholder without moving (C11 R11b) --
     pk = tr.methods('LatexTokenReader').get('peek_token')
-    t = unparse(pk) if pk is not None else ''
-    ok = 'except LatexWalkerTokenParseError as exc' in t and 'return exc.recovery_token_placeholder' in t \
-        and 'if self.tolerant_parsing' in t
-    ctx.decide('R06b', ok, tr, pk or tr.cls('LatexTokenReader'),
-               'tolerant reader turns a token error into its placeholder token',
-               'peek_token no longer returns the recovery placeholder in tolerant mode',
+    if pk is None:
+        raise AnalysisError('anchor vanished: LatexTokenReader.peek_token')
+    from .. import symex
+    why = None
+    hs = [h for t_ in iter_own(pk) if isinstance(t_, ast.Try) for h in t_.handlers
+          if h.type is not None and 'LatexWalkerTokenParseError' in unparse(h.type)]
+    if len(hs) != 1 or not hs[0].name:
+        why = 'no single handler `except LatexWalkerTokenParseError as <name>`'
+    else:
+        h = hs[0]
+        cases = symex.Walker(want_returns=True, want_raises=True).run_block(h.body)
+        n_ret = n_raise = 0
+        for cs in cases:
+            facts = symex.facts_of(cs.conds)
+            tol = [p_ for t_, p_ in facts if t_ == 'self.tolerant_parsing']
+            if cs.kind == 'return':
+                n_ret += 1
+                if tol != [True]:
+                    why = 'a value is returned from the handler without tolerant_parsing being set'
+                elif unparse(cs.sub) != h.name + '.recovery_token_placeholder':
+                    why = 'tolerant mode returns %s, not the error\'s recovery placeholder token' % short(cs.sub)
+            elif cs.kind == 'raise':
+                n_raise += 1
+                if tol != [False]:
+                    why = 'the token error is re-raised although tolerant_parsing may be set'
+        if why is None and not (n_ret and n_raise):
+            why = 'the handler does not both return the placeholder (tolerant) and re-raise (strict)'
+    ctx.decide('R06b', why is None, tr, pk, 'tolerant reader turns a token error into its placeholder token',
+               'peek_token no longer returns the recovery placeholder in tolerant mode: %s' % why,
                construct='peek_token: tolerant branch')
 
     # ------------------------------------------------------------ R06c
